@@ -31,6 +31,7 @@ type Client struct {
 	Comp   string // negotiated compression (for decoding replies)
 	wmu    sync.Mutex
 	fence  int16
+	gate   sync.Mutex // held while reads are paused
 }
 
 func Dial(addr string) (*Client, error) {
@@ -47,8 +48,14 @@ func Dial(addr string) (*Client, error) {
 	return c, nil
 }
 
+// PauseReads stops draining the socket (a slow consumer); ResumeReads continues.
+func (c *Client) PauseReads()  { c.gate.Lock() }
+func (c *Client) ResumeReads() { c.gate.Unlock() }
+
 func (c *Client) read() {
 	for {
+		c.gate.Lock()
+		c.gate.Unlock()
 		f, err := wire.Read(c.nc)
 		c.mu.Lock()
 		if err != nil {
